@@ -1,10 +1,11 @@
 (* Model/Attr.v — mirrors, function by function,
      /repo/src/read/abbrev.rs : AttributeSpecification::{new, implicit_const_value, parse}, get_attribute_size
+     /repo/src/read/line.rs   : parse_attribute (the line-table variant)
      /repo/src/read/unit.rs   : allow_section_offset, parse_attribute, skip_attributes,
                                 EntriesRaw::read_attributes, Attribute::value (+ its class macros),
                                 AttributeValue::{u8_value,u16_value,udata_value,sdata_value,offset_value,exprloc_value}
    for R = EndianSlice (Offset = usize = u64: ReaderOffset::from_u64 never fails).
-   No proofs here. Streams: c03.forms c03.lists c03.size c03.value c03.helpers *)
+   No proofs here. Streams: c03.forms c03.lists c03.size c03.value c03.helpers c03.lineform *)
 From Coq Require Import List NArith ZArith Bool.
 From Coq.Strings Require Import Byte.
 Require Import GV.Base.Res GV.Base.Byt GV.Base.Ints GV.Model.Leb GV.Model.Prim GV.Spec.FormSpec.
@@ -289,6 +290,42 @@ Definition skip_attributes (dbg : bool) (e : enc) (specs : list aspec) (bs : lis
   : res (list byte) :=
   let* (sb, r) := skip_specs dbg e 0 specs bs in
   if sb =? 0 then Ok r else skip_n sb r.
+
+(* ---- src/read/line.rs parse_attribute(input, encoding, form): the forms a DWARF 5 line-table
+   directory / file entry format may use. No name, no DW_FORM_indirect, DW_FORM_data16 is returned
+   as a 16-byte block. ---- *)
+Definition line_parse_attribute (dbg : bool) (e : enc) (form : N) (bs : list byte)
+  : res (attr_value * list byte) :=
+  let bigend := be e in
+  let num (mk : N -> attr_value) (r : res (N * list byte)) : res (attr_value * list byte) :=
+    let* (v, t) := r in Ok (mk v, t) in
+  let bytes (mk : list byte -> attr_value) (r : res (list byte * list byte)) :=
+    let* (v, t) := r in Ok (mk v, t) in
+  if form =? DW_FORM_block1 then bytes VBlock (read_block (read_u8 bs))
+  else if form =? DW_FORM_block2 then bytes VBlock (read_block (read_u16 bigend bs))
+  else if form =? DW_FORM_block4 then bytes VBlock (read_block (read_u32 bigend bs))
+  else if form =? DW_FORM_block then bytes VBlock (read_block (read_uleb128 dbg bs))
+  else if form =? DW_FORM_data1 then num VData1 (read_u8 bs)
+  else if form =? DW_FORM_data2 then num VData2 (read_u16 bigend bs)
+  else if form =? DW_FORM_data4 then num VData4 (read_u32 bigend bs)
+  else if form =? DW_FORM_data8 then num VData8 (read_u64 bigend bs)
+  else if form =? DW_FORM_data16 then bytes VBlock (split_n 16 bs)
+  else if form =? DW_FORM_udata then num VUdata (read_uleb128 dbg bs)
+  else if form =? DW_FORM_sdata then (let* (z, t) := read_sleb128 dbg bs in Ok (VSdata z, t))
+  else if form =? DW_FORM_flag then num (fun v => VFlag (negb (v =? 0))) (read_u8 bs)
+  else if form =? DW_FORM_sec_offset then num VSecOffset (read_offset e bs)
+  else if form =? DW_FORM_string then bytes VString (read_cstr bs)
+  else if form =? DW_FORM_strp then num VDebugStrRef (read_offset e bs)
+  else if (form =? DW_FORM_strp_sup) || (form =? DW_FORM_GNU_strp_alt) then
+    num VDebugStrRefSup (read_offset e bs)
+  else if form =? DW_FORM_line_strp then num VDebugLineStrRef (read_offset e bs)
+  else if (form =? DW_FORM_strx) || (form =? DW_FORM_GNU_str_index) then
+    num VDebugStrOffsetsIndex (read_uleb128 dbg bs)
+  else if form =? DW_FORM_strx1 then num VDebugStrOffsetsIndex (read_u8 bs)
+  else if form =? DW_FORM_strx2 then num VDebugStrOffsetsIndex (read_u16 bigend bs)
+  else if form =? DW_FORM_strx3 then num VDebugStrOffsetsIndex (read_uint 3 bigend bs)
+  else if form =? DW_FORM_strx4 then num VDebugStrOffsetsIndex (read_u32 bigend bs)
+  else Err EUnknownForm.
 
 (* ---- AttributeValue helpers ---- *)
 Definition udata_value (v : attr_value) : option N :=
